@@ -88,8 +88,51 @@ func c03(r *core.Report, p *core.Prog, thorough bool) {
 					one, stNonce = k, add.Y
 				}
 			}
-			r.Check((c.Op == token.NEQ || c.Op == token.EQL) && isAdd && one == 1, "C03.shape", "validateNonce:canonical", p.Pos(c.Pos()),
-				"comparison is `"+c.String()+"` with other side "+other.String()+" (want stateNonce + 1 != txnNonce)")
+			okNext := isAdd && one == 1
+			viaHelper := false
+			if !okNext {
+				// `next := nextNonce(state)`: a helper of the package that returns its argument's
+				// Nonce + 1, and 1 when the argument is nil
+				if hc, ok := other.(*ssa.Call); ok {
+					if h := hc.Call.StaticCallee(); h != nil && h.Pkg != nil && h.Pkg.Pkg.Path() == pkgChain && h.Blocks != nil && len(hc.Call.Args) == 1 && len(h.Params) == 1 {
+						all := true
+						n := 0
+						for _, ret := range core.Returns(h) {
+							n++
+							v := core.ResultValue(ret, 0)
+							if k, isK := core.ConstInt(v); isK && k == 1 {
+								if core.KnownNil(core.FactsAt(ret.Block()), h.Params[0]) != 1 {
+									all = false
+								}
+								continue
+							}
+							a2, isA := v.(*ssa.BinOp)
+							if !isA || a2.Op != token.ADD {
+								all = false
+								continue
+							}
+							k, isK := core.ConstInt(a2.Y)
+							if !isK || k != 1 || !isFieldLoadOn(a2.X, h.Params[0], "Nonce") {
+								all = false
+							}
+						}
+						if all && n > 0 {
+							okNext, viaHelper = true, true
+							// the helper's argument is the state loaded for the client
+							roots := core.RootDescs(core.Slice(hc.Call.Args[0]))
+							for _, d := range roots {
+								if !strings.Contains(d, "GetClientState") && d != "const:nil" {
+									okNext = false
+									r.Info["c03_next_helper_arg_roots"] = fmt.Sprint(roots)
+								}
+							}
+						}
+					}
+				}
+			}
+			r.Check((c.Op == token.NEQ || c.Op == token.EQL) && okNext, "C03.shape", "validateNonce:canonical", p.Pos(c.Pos()),
+				"comparison is `"+c.String()+"` with other side "+other.String()+" (want stateNonce + 1 compared with txnNonce, directly or through a helper returning Nonce + 1 / 1 for a missing state)")
+			_ = viaHelper
 			// reject edge
 			for _, ref := range *c.Referrers() {
 				if ifi, ok := ref.(*ssa.If); ok {
@@ -172,9 +215,55 @@ func c03(r *core.Report, p *core.Prog, thorough bool) {
 		r.Unresolved("C03.once", "State.Nonce")
 		return
 	}
-	ws := core.FieldWrites([]*ssa.Function{in}, nf)
-	if r.Check(len(ws) == 1 && ws[0].Kind == "store", "C03.once", "incrementNonce:single-store", p.Pos(in.Pos()), fmt.Sprintf("%d stores to Nonce", len(ws))) {
+	// incrementNonce and the helpers only it calls (a helper extracted from it)
+	fam := []*ssa.Function{in}
+	inFam := map[*ssa.Function]bool{in: true}
+	for changed := true; changed; {
+		changed = false
+		for _, f := range fam {
+			for _, b := range f.Blocks {
+				for _, x := range b.Instrs {
+					c, ok := x.(*ssa.Call)
+					if !ok {
+						continue
+					}
+					h := c.Call.StaticCallee()
+					if h == nil || inFam[h] || h.Pkg == nil || h.Pkg.Pkg.Path() != pkgChain || h.Blocks == nil {
+						continue
+					}
+					if len(core.FieldWrites([]*ssa.Function{h}, nf)) == 0 {
+						continue
+					}
+					private := true
+					for _, caller := range p.ModFuncs() {
+						if inFam[caller] {
+							continue
+						}
+						if len(core.CallsIn(caller, true, func(cc *ssa.CallCommon) bool { return cc.StaticCallee() == h })) > 0 {
+							private = false
+						}
+					}
+					if private {
+						inFam[h] = true
+						fam = append(fam, h)
+						changed = true
+					}
+				}
+			}
+		}
+	}
+	ws := core.FieldWrites(fam, nf)
+	if r.Check(len(ws) == 1 && ws[0].Kind == "store", "C03.once", "incrementNonce:single-store", p.Pos(in.Pos()), fmt.Sprintf("%d stores to Nonce in incrementNonce and its private helpers", len(ws))) {
 		w := ws[0]
+		wf := w.Fn
+		if wf != in {
+			// the helper runs on every success path of incrementNonce and its failure is returned
+			for _, hc := range findCallsTo(in, wf) {
+				okM, whyM := MustPass(p, in, hc)
+				r.Check(okM && core.ErrLeadsToFailure(hc), "C03.once", "incrementNonce:helper-on-every-path", p.Pos(hc.Pos()), "the helper that stores the nonce is crossed on every success path and its error is returned "+whyM)
+			}
+			r.Check(len(findCallsTo(in, wf)) == 1, "C03.once", "incrementNonce:helper-called-once", p.Pos(in.Pos()), "the storing helper is called exactly once")
+		}
 		add, ok := w.Val.(*ssa.BinOp)
 		good := false
 		if ok && add.Op == token.ADD {
@@ -186,17 +275,31 @@ func c03(r *core.Report, p *core.Prog, thorough bool) {
 		r.Check(good, "C03.once", "incrementNonce:plus-one", posOf(p, w.Instr), "stored value must be the same object's Nonce + 1")
 		// no loop: the store's block is not in a cycle
 		r.Check(!inCycle(w.Instr.Block()), "C03.once", "incrementNonce:not-in-loop", posOf(p, w.Instr), "increment must not repeat")
-		scs := core.CallsIn(in, false, func(c *ssa.CallCommon) bool { return isSCtxCall(c, "SetClientState") })
+		scs := core.CallsIn(wf, false, func(c *ssa.CallCommon) bool { return isSCtxCall(c, "SetClientState") })
 		if r.Check(len(scs) == 1, "C03.once", "incrementNonce:persist", p.Pos(in.Pos()), fmt.Sprintf("%d SetClientState calls", len(scs))) {
 			sc := scs[0].Instr.(*ssa.Call)
 			a := core.CallArgs(sc.Common())
 			so, _ := core.BaseObject(a[1])
 			wo, _ := core.BaseObject(w.Addr)
-			r.Check(describe(a[0]) == "fromClient" && sameObj(so, wo), "C03.once", "incrementNonce:persist-same", p.Pos(sc.Pos()), "persists the incremented object under "+describe(a[0]))
+			// the key is incrementNonce's client parameter (handed through to the helper)
+			keyOK := describe(a[0]) == "fromClient"
+			if wf != in {
+				keyOK = false
+				if kp := core.ParamOf(a[0]); kp != nil {
+					for _, hc := range findCallsTo(in, wf) {
+						for i, hp := range wf.Params {
+							if hp == kp && i < len(hc.Call.Args) && describe(hc.Call.Args[i]) == "fromClient" {
+								keyOK = true
+							}
+						}
+					}
+				}
+			}
+			r.Check(keyOK && sameObj(so, wo), "C03.once", "incrementNonce:persist-same", p.Pos(sc.Pos()), "persists the incremented object under "+describe(a[0]))
 			r.Check(core.ErrLeadsToFailure(sc), "C03.once", "incrementNonce:persist-err", p.Pos(sc.Pos()), "persist failure must be returned")
 			r.Check(core.Reaches(w.Instr, sc), "C03.once", "incrementNonce:store-before-persist", p.Pos(sc.Pos()), "the increment must precede the persist")
-			for _, ret := range core.SuccessExits(in) {
-				_, _, found := core.PathQuery{Fn: in, Barrier: func(x ssa.Instruction) bool { return x == ssa.Instruction(sc) }, EdgeOK: core.FeasibleEdge,
+			for _, ret := range core.SuccessExits(wf) {
+				_, _, found := core.PathQuery{Fn: wf, Barrier: func(x ssa.Instruction) bool { return x == ssa.Instruction(sc) }, EdgeOK: core.FeasibleEdge,
 					Target: func(x ssa.Instruction) bool { return x == ssa.Instruction(ret) }}.Find()
 				r.Check(!found, "C03.once", fmt.Sprintf("incrementNonce:success-needs-persist@b%d", ret.Block().Index), p.Pos(ret.Pos()), "success exit must follow the persist")
 			}
@@ -211,7 +314,7 @@ func c03(r *core.Report, p *core.Prog, thorough bool) {
 		switch {
 		case w.Kind == "store" && isFresh(w.Addr):
 			r.Pass("C03.writers", key+":fresh", posOf(p, w.Instr), "construction")
-		case fn == in.String(), fn == "(*"+pkgState+".State).Decode", fn == "(*"+pkgState+".State).Clone":
+		case inFam[core.EnclosingNamed(w.Fn)], fn == "(*"+pkgState+".State).Decode", fn == "(*"+pkgState+".State).Clone":
 			r.Pass("C03.writers", key, posOf(p, w.Instr), "owner/codec")
 		case isTooling(p, w.Fn):
 			r.Pass("C03.writers", key+":tooling", posOf(p, w.Instr), "not linked into/reachable from a node binary")
@@ -226,45 +329,97 @@ func c03(r *core.Report, p *core.Prog, thorough bool) {
 		r.Unresolved("C03.generator", "miner.validateTransaction")
 		return
 	}
-	var fut, past int
-	for _, b := range vt.Blocks {
-		for _, x := range b.Instrs {
-			bo, ok := x.(*ssa.BinOp)
-			if !ok || (bo.Op != token.GTR && bo.Op != token.LSS) {
-				continue
-			}
-			k, isK := core.ConstInt(bo.Y)
-			if !isK || k != 1 {
-				continue
-			}
-			lhs := describe(bo.X)
-			onState := false
-			if sub, ok := bo.X.(*ssa.BinOp); ok && sub.Op == token.SUB {
-				onState = strings.HasSuffix(describe(sub.X), "txn.Nonce") && strings.HasSuffix(describe(sub.Y), ".Nonce")
-			} else if strings.HasSuffix(lhs, "txn.Nonce") {
-				onState = true // absent state: nonce compared with 1 directly
-			}
-			if !onState {
-				continue
-			}
-			// the true edge must return the matching sentinel
-			for _, ref := range *bo.Referrers() {
-				if ifi, ok := ref.(*ssa.If); ok {
-					ts := ifi.Block().Succs[0]
-					if ret, ok := ts.Instrs[len(ts.Instrs)-1].(*ssa.Return); ok {
-						d := describe(ret.Results[1])
-						if bo.Op == token.GTR && strings.Contains(d, "FutureTransaction") {
-							fut++
-						}
-						if bo.Op == token.LSS && strings.Contains(d, "PastTransaction") {
-							past++
+	classify := func(vt *ssa.Function, isTxn, isState func(ssa.Value) bool) (fut, past int) {
+		for _, b := range vt.Blocks {
+			for _, x := range b.Instrs {
+				bo, ok := x.(*ssa.BinOp)
+				if !ok || (bo.Op != token.GTR && bo.Op != token.LSS) {
+					continue
+				}
+				k, isK := core.ConstInt(bo.Y)
+				if !isK || k != 1 {
+					continue
+				}
+				onState := false
+				if sub, ok := bo.X.(*ssa.BinOp); ok && sub.Op == token.SUB {
+					onState = isTxn(sub.X) && isState(sub.Y)
+				} else if isTxn(bo.X) {
+					onState = true // absent state: nonce compared with 1 directly
+				}
+				if !onState {
+					continue
+				}
+				// the true edge must return the matching sentinel
+				for _, ref := range *bo.Referrers() {
+					if ifi, ok := ref.(*ssa.If); ok {
+						ts := ifi.Block().Succs[0]
+						if ret, ok := ts.Instrs[len(ts.Instrs)-1].(*ssa.Return); ok {
+							d := describe(ret.Results[len(ret.Results)-1])
+							if bo.Op == token.GTR && strings.Contains(d, "FutureTransaction") {
+								fut++
+							}
+							if bo.Op == token.LSS && strings.Contains(d, "PastTransaction") {
+								past++
+							}
 						}
 					}
 				}
 			}
 		}
+		return
 	}
-	r.Check(fut == 2 && past == 2, "C03.generator", "validateTransaction:classification", p.Pos(vt.Pos()), fmt.Sprintf("future(>1)=%d past(<1)=%d (present and absent state arms)", fut, past))
+	fut, past := classify(vt, func(v ssa.Value) bool { return strings.HasSuffix(describe(v), "txn.Nonce") }, func(v ssa.Value) bool { return strings.HasSuffix(describe(v), ".Nonce") })
+	okGen := fut == 2 && past == 2
+	how := "inline"
+	if !okGen {
+		// the two arms may share a helper classify(txnNonce, stateNonce) called with the state's nonce and with 0
+		for _, b := range vt.Blocks {
+			for _, x := range b.Instrs {
+				c, ok := x.(*ssa.Call)
+				if !ok {
+					continue
+				}
+				h := c.Call.StaticCallee()
+				if h == nil || h.Pkg == nil || h.Pkg != vt.Pkg || h.Blocks == nil || len(h.Params) < 2 {
+					continue
+				}
+				n := len(h.Params)
+				hf, hp := classify(h, func(v ssa.Value) bool { return v == ssa.Value(h.Params[n-2]) }, func(v ssa.Value) bool { return v == ssa.Value(h.Params[n-1]) })
+				if hf != 1 || hp != 1 {
+					continue
+				}
+				withState, withZero := 0, 0
+				for _, hc := range findCallsTo(vt, h) {
+					a := hc.Call.Args
+					if !strings.HasSuffix(describe(a[len(a)-2]), "txn.Nonce") {
+						continue
+					}
+					if k, isK := core.ConstInt(a[len(a)-1]); isK && k == 0 {
+						withZero++
+					} else if strings.HasSuffix(describe(a[len(a)-1]), ".Nonce") {
+						withState++
+					}
+					// the helper's verdict is what validateTransaction returns
+					used := false
+					for _, ret := range core.Returns(vt) {
+						_, leaves := FlowLoads(core.ResultValue(ret, len(ret.Results)-1))
+						for _, l := range leaves {
+							if l == ssa.Value(hc) {
+								used = true
+							}
+						}
+					}
+					if !used {
+						withState, withZero = -10, -10
+					}
+				}
+				if withState >= 1 && withZero >= 1 {
+					okGen, how = true, "through "+h.Name()+"(txn.Nonce, state nonce | 0)"
+				}
+			}
+		}
+	}
+	r.Check(okGen, "C03.generator", "validateTransaction:classification", p.Pos(vt.Pos()), fmt.Sprintf("future(>1)=%d past(<1)=%d inline (present and absent state arms); %s", fut, past, how))
 }
 
 // sameObj: identical base value or two loads of the same local variable.
